@@ -206,6 +206,43 @@ def e2eStep (st : St) (kind fab mode id cats treq flag paths emit out : String) 
       else if model = out then (st, "ok") else (st, s!"DIS {model}")
   | _, _, _, _, _, _ => (st, "BAD e2e")
 
+/-- chunked write: `treq` = `T:D0,D1,..` or `-`, `flags` = `f0+f1+..`, `paths` = chunk paths joined by `+` -/
+def e2eChunked (st : St) (fab mode id cats treq flags paths out : String) : St × String :=
+  let parseChunkPaths (s : String) : Option (List Path) :=
+    ((s.splitOn ";").filter (fun s => s ≠ "" ∧ s ≠ "-")).mapM parsePath
+  let timing : Option (Option Nat × List Nat) :=
+    if treq = "-" then some (none, []) else
+    match treq.splitOn ":" with
+    | [t, ds] =>
+      match t.toNat?, (ds.splitOn ",").mapM (·.toNat?) with
+      | some t, some ds => some (some t, ds)
+      | _, _ => none
+    | _ => none
+  match fab.toNat?, id.toNat?, Driver.C05.natList cats, timing, (paths.splitOn "+").mapM parseChunkPaths with
+  | some fab, some id, some cats, some (timeout, delays), some chunkPaths =>
+    let acc : Accessor :=
+      if mode = "p" then { fabIdx := fab, auxAclEnabled := false, subjects := subjectsNew 1, authMode := some .pase }
+      else { fabIdx := fab, auxAclEnabled := false, subjects := cats.foldl addCatid (subjectsNew id), authMode := some .case }
+    if mode ≠ "p" ∧ fab = 0 then (st, "BAD e2e case session needs a fabric") else
+    let fl : List Bool := (flags.splitOn "+").map (fun f => decide (f = "1"))
+    let chunks : List Chunk := chunkPaths.zipIdx.map fun (ps, k) =>
+      { flag := (fl[k]?).getD false, delay := (delays[k]?).getD 0, paths := ps }
+    let ctxOf (flag : Bool) : Ctx := { fabrics := st.acl.fabrics, accessor := acc, timed := flag, filter := fun _ _ _ => true }
+    let sorted : Bool := decide ((st.node.map (·.id)).Pairwise (· < ·))
+    let inScope := nodeWF st.node &&
+      st.acl.fabrics.all (fun f => f.acl.all (fun e => Driver.C05.canonicalPriv e.privilege))
+    let bad := ["panic", "hang", "err", "devend", "setup", "undecodable", "timedfail", "opcode"].any fun w =>
+      (out.splitOn w).length > 1
+    if bad then (if (out.splitOn "panic").length > 1 && !sorted then (st, "ok") else (st, s!"ORA {out}")) else
+    let render (os : List Outcome) : String := " ## ".intercalate (os.map (fmtOutcome "W"))
+    let model := render (imWriteChunks
+      (fun flag ps => expand (ctxOf flag) .write st.node ps (if sorted then fuelBound .write st.node ps else FUEL))
+      timeout 0 chunks)
+    let spec := render (imWriteChunks (fun flag ps => expected (ctxOf flag) .write st.node ps) timeout 0 chunks)
+    if inScope && spec ≠ out then (st, s!"ORA spec=[{spec}]")
+    else if model = out then (st, "ok") else (st, s!"DIS {model}")
+  | _, _, _, _, _ => (st, "BAD e2e W")
+
 def step (st : St) (line : String) : St × String :=
   let (opText, out) := splitArrow line
   match words opText with
@@ -244,6 +281,8 @@ def step (st : St) (line : String) : St × String :=
       else if inScope && spec ≠ out then (st, s!"ORA spec=[{spec}]")
       else if model = out then (st, "ok") else (st, s!"DIS {model}")
     | _, _, _, _, _, _ => (st, "BAD x")
+  | ["e2e", "W", fab, mode, id, cats, treq, flags, paths, _] =>
+    e2eChunked st fab mode id cats treq flags paths out
   | ["e2e", kind, fab, mode, id, cats, treq, flag, paths, emit] =>
     e2eStep st kind fab mode id cats treq flag paths emit out
   | "sw" :: kind :: fab :: mode :: aux :: id :: cats :: timed :: excl :: paths :: specs =>
